@@ -9,6 +9,7 @@ import (
 	"math/big"
 
 	"github.com/bluenviron/mediacommon/v2/pkg/codecs/h264"
+	"github.com/bluenviron/mediacommon/v2/pkg/codecs/h265"
 )
 
 type munit struct {
@@ -54,13 +55,14 @@ type emodel struct {
 	// h264b: decode times are derived from the written presentation times and picture order counts by mediacommon's
 	// DTS extractor (an external dependency of the library, used here as the definition of "the written decode time")
 	ext    []*h264.DTSExtractor
-	extErr error // the extractor rejected a unit the muxer accepted
+	ext265 []*h265.DTSExtractor // h265b, same role
+	extErr error                // the extractor rejected a unit the muxer accepted
 }
 
 func newModel(cfg muxCfg) *emodel {
 	n := len(cfg.Tracks)
 	return &emodel{eitherNoCutAt: -1, cfg: cfg, lead: cfg.leading(), fmp4: cfg.Variant != "mpegts", seenRA: make([]bool, n),
-		next: make([]*munit, n), emitted: make([][]*munit, n), accepted: make([][]*munit, n), ext: make([]*h264.DTSExtractor, n)}
+		next: make([]*munit, n), emitted: make([][]*munit, n), accepted: make([][]*munit, n), ext: make([]*h264.DTSExtractor, n), ext265: make([]*h265.DTSExtractor, n)}
 }
 
 // offset10s is the constant added by the fMP4 variants, in the track's clock rate.
@@ -132,7 +134,7 @@ func (m *emodel) write(u wunit, data [][]byte) {
 		// parameter detection happens first, on whatever the unit carries
 		carries := false
 		switch t.Kind {
-		case "h264", "h264b", "h265":
+		case "h264", "h264b", "h265", "h265b":
 			carries = u.Params != 0
 		case "av1", "vp9":
 			carries = u.RA // sequence header / key-frame header always describe the parameters
@@ -171,6 +173,18 @@ func (m *emodel) write(u wunit, data [][]byte) {
 			}
 			dts = d
 		}
+		if t.Kind == "h265b" {
+			if m.ext265[u.Track] == nil {
+				m.ext265[u.Track] = &h265.DTSExtractor{}
+				m.ext265[u.Track].Initialize()
+			}
+			d, err := m.ext265[u.Track].Extract(data, u.DTS)
+			if err != nil {
+				m.extErr = err
+				return
+			}
+			dts = d
+		}
 		unit := &munit{w: u, dts: dts, ptsOff: u.DTS - dts, ra: u.RA, data: data}
 		m.accept(u.Track, unit, paramsChanged)
 		return
@@ -196,6 +210,15 @@ func (m *emodel) write(u wunit, data [][]byte) {
 // dtsUnderivable reports whether the decode time of u cannot be derived (h264b): the Write call must fail and the word
 // ends there. It consumes the extractor state, so nothing may be written afterwards.
 func (m *emodel) dtsUnderivable(u wunit, data [][]byte) bool {
+	if m.cfg.Tracks[u.Track].Kind == "h265b" && (m.seenRA[u.Track] || u.RA) {
+		ext := m.ext265[u.Track]
+		if ext == nil {
+			ext = &h265.DTSExtractor{}
+			ext.Initialize()
+		}
+		_, err := ext.Extract(data, u.DTS)
+		return err != nil
+	}
 	if m.cfg.Tracks[u.Track].Kind != "h264b" || (!m.seenRA[u.Track] && !u.RA) {
 		return false
 	}
